@@ -318,6 +318,27 @@ def w_shape_copies(idx):
     return n, out
 
 
+_P, _S = "The quick brown fox jumps over ", " the lazy dog and keeps on running"
+
+
+def stretched(st, text_of):
+    """The same state with every string value wrapped in one long common prefix and one long common suffix (an injective
+    renaming: TreeEq is unchanged).  Values now differ only in the MIDDLE of long strings."""
+    from harness.world import NOSTR
+    wrap = lambda v: _P + v + _S  # noqa: E731
+    st2 = dict(st)
+    st2["name"] = [wrap(x) for x in st["name"]]
+    if "prefix" in st:
+        st2["prefix"] = [x if x == NOSTR else wrap(x) for x in st["prefix"]]
+    if "ns" in st:
+        st2["ns"] = [[[q if q == "~default" else wrap(q), wrap(u)] for q, u in m] for m in st["ns"]]
+    for f in ("attrs", "extras"):
+        if f in st:
+            st2[f] = [[[wrap(k), v] for k, v in m] for m in st[f]]
+    base = text_of or (lambda a: None if a == 0 else ("" if a == 2 else f"text-{a}"))
+    return st2, (lambda a: None if base(a) is None else wrap(base(a)))
+
+
 def w_shapes(idx):
     """MC_Shapes: both trees of every logged pair are built as they are (no history) and every ordered pair of
     distinct nodes is compared."""
@@ -346,6 +367,25 @@ def w_shapes(idx):
         if canon(w.pi(ALLF)) != canon(before):
             out.append(("is_equal:mutates:shapes", "", {"kind": "shapes", "state": e["st"]}))
         n += 1
+        # the same pair of trees with every string value stretched: long values that differ only in the middle
+        st2, tof = stretched(e["st"], G.get("SH_text_of"))
+        w2 = World.build(st2, text_of=tof)
+        for a in range(1, N + 1):
+            for b in range(1, N + 1):
+                if a == b:
+                    continue
+                npairs += 1
+                try:
+                    got = Node.is_equal(w2.n(a), w2.n(b))
+                except Exception as exc:  # noqa: BLE001
+                    out.append((f"is_equal:raised:{type(exc).__name__}:shapes:long-values", repr(exc), {"kind": "shapes", "state": e["st"], "a": a, "b": b, "long_values": True}))
+                    continue
+                want = (a, b) in eq
+                if bool(got) != want:
+                    where = first_difference(e["st"], a, b) if not want else "equal"
+                    out.append((f"is_equal:{'false-positive' if got else 'false-negative'}:{where}:shapes:long-values",
+                                f"is_equal({a},{b}) = {got}, TreeEq = {want}; every string value wrapped in a long common prefix and suffix; state {jdump(e['st'])}",
+                                {"kind": "shapes", "state": e["st"], "a": a, "b": b, "expected": want, "long_values": True}))
     return n, out, npairs
 
 
